@@ -45,6 +45,11 @@ type scroll struct {
 }
 
 func (d *Dynamic) SetCursor(c uint) {
+	// Only accept the index of an item we have (0 is always accepted so
+	// that an emptied list can be reset)
+	if c > 0 && d.Builder != nil && d.Builder(c, d.cursor) == nil {
+		return
+	}
 	d.cursor = c
 	d.ensureScroll()
 }
